@@ -52,7 +52,7 @@ func runC16Case(t *testing.T, c c16Case) CaseOut {
 func runC16CaseCh(t *testing.T, c c16Case, early chan CaseOut) CaseOut {
 	var out CaseOut
 	out.Nontrivial = true
-	synctest.Test(t, func(t *testing.T) {
+	bubble(t, func(t *testing.T) {
 		var tp c10Topo
 		for _, x := range c10Topos() {
 			if x.Name == c.Topo {
